@@ -98,7 +98,8 @@ theorem rpU_val (m B : Nat) (hm : m ≠ 0) (hlt : m * 2 ^ B < 2 ^ 1127) :
     rpU m B < 0x7F800000 ∧
     (quant m B ≤ B → pval (rpU m B) * 2 ^ 851 = m * 2 ^ B) ∧
     2 * (pval (rpU m B) * 2 ^ 851) ≤ 2 * (m * 2 ^ B) + 2 ^ quant m B ∧
-    2 * (m * 2 ^ B) ≤ 2 * (pval (rpU m B) * 2 ^ 851) + 2 ^ quant m B := by
+    2 * (m * 2 ^ B) ≤ 2 * (pval (rpU m B) * 2 ^ 851) + 2 ^ quant m B ∧
+    ∃ r, pval (rpU m B) * 2 ^ 851 = r * 2 ^ quant m B := by
   have hLB := log2_add_lt hm hlt
   have lo := Nat.log2_self_le hm
   have hi := @Nat.lt_log2_self m
@@ -153,24 +154,74 @@ theorem rpU_val (m B : Nat) (hm : m ≠ 0) (hlt : m * 2 ^ B < 2 ^ 1127) :
     omega
   rw [Nat.min_eq_right (Nat.le_of_lt hfin), hv]
   clear hv
-  refine ⟨hfin, ?_, ?_⟩
+  refine ⟨hfin, ?_, ?_, ?_, ⟨_, rfl⟩⟩
   · intro hc
     rw [if_pos hc]
     exact mul_pow_cancel _ B q hc
-  · by_cases hc : q ≤ B
-    · rw [if_pos hc, mul_pow_cancel _ B q hc]
-      exact ⟨Nat.le_add_right _ _, Nat.le_add_right _ _⟩
-    · rw [if_neg hc]
-      obtain ⟨e1, e2⟩ := rne_err m (q - B) (by omega)
-      have hs : 2 ^ q = 2 ^ (q - B) * 2 ^ B := by
-        rw [← Nat.pow_add, Nat.sub_add_cancel (by omega)]
-      rw [hs, ← Nat.mul_assoc (rne m (q - B))]
-      have f1 := Nat.mul_le_mul_right (2 ^ B) e1
-      have f2 := Nat.mul_le_mul_right (2 ^ B) e2
-      rw [Nat.add_mul] at f1 f2
-      rw [Nat.mul_assoc 2 (rne m (q - B) * 2 ^ (q - B)) (2 ^ B)] at f1 f2
-      rw [Nat.mul_assoc 2 m (2 ^ B)] at f1 f2
-      exact ⟨f1, f2⟩
+  all_goals by_cases hc : q ≤ B
+  · rw [if_pos hc, mul_pow_cancel _ B q hc]
+    exact Nat.le_add_right _ _
+  · rw [if_neg hc]
+    obtain ⟨e1, e2⟩ := rne_err m (q - B) (by omega)
+    have hs : 2 ^ q = 2 ^ (q - B) * 2 ^ B := by
+      rw [← Nat.pow_add, Nat.sub_add_cancel (by omega)]
+    rw [hs, ← Nat.mul_assoc (rne m (q - B))]
+    have f1 := Nat.mul_le_mul_right (2 ^ B) e1
+    rw [Nat.add_mul] at f1
+    rw [Nat.mul_assoc 2 (rne m (q - B) * 2 ^ (q - B)) (2 ^ B)] at f1
+    rw [Nat.mul_assoc 2 m (2 ^ B)] at f1
+    exact f1
+  · rw [if_pos hc, mul_pow_cancel _ B q hc]
+    exact Nat.le_add_right _ _
+  · rw [if_neg hc]
+    obtain ⟨e1, e2⟩ := rne_err m (q - B) (by omega)
+    have hs : 2 ^ q = 2 ^ (q - B) * 2 ^ B := by
+      rw [← Nat.pow_add, Nat.sub_add_cancel (by omega)]
+    rw [hs, ← Nat.mul_assoc (rne m (q - B))]
+    have f2 := Nat.mul_le_mul_right (2 ^ B) e2
+    rw [Nat.add_mul] at f2
+    rw [Nat.mul_assoc 2 (rne m (q - B) * 2 ^ (q - B)) (2 ^ B)] at f2
+    rw [Nat.mul_assoc 2 m (2 ^ B)] at f2
+    exact f2
+
+/-- STICKY BIT: for an ODD significand `m ≥ 2^25` (two or more bits below the rounding position, the last one set) the
+result is at most half a quantum MINUS one unit `2^B` away from `m·2^B`; hence every exact value strictly within one
+unit of `m·2^B` is rounded to the same result, with an error of at most half a quantum (`roundF32`) -/
+theorem rpU_sticky (m B : Nat) (hodd : m % 2 = 1) (hbig : 2 ^ 25 ≤ m) (hlt : m * 2 ^ B < 2 ^ 1127) :
+    2 * (pval (rpU m B) * 2 ^ 851) + 2 * 2 ^ B ≤ 2 * (m * 2 ^ B) + 2 ^ quant m B ∧
+    2 * (m * 2 ^ B) + 2 * 2 ^ B ≤ 2 * (pval (rpU m B) * 2 ^ 851) + 2 ^ quant m B := by
+  have hm : m ≠ 0 := by omega
+  obtain ⟨_, _, h1, h2, r, hr⟩ := rpU_val m B hm hlt
+  have hL : 25 ≤ Nat.log2 m := (Nat.le_log2 hm).mpr hbig
+  have hq : B + 2 ≤ quant m B := by unfold quant; omega
+  clear hlt hbig
+  rw [hr] at h1 h2 ⊢
+  obtain ⟨j, hj⟩ : ∃ j, quant m B = B + 2 + j := ⟨quant m B - (B + 2), by omega⟩
+  have hs : 2 ^ quant m B = 4 * 2 ^ j * 2 ^ B := by
+    rw [hj, Nat.pow_add, Nat.pow_add, Nat.mul_comm (2 ^ B), Nat.mul_assoc, Nat.mul_comm (2 ^ B), ← Nat.mul_assoc]
+  rw [hs] at h1 h2 ⊢
+  generalize 2 ^ j = p at *
+  have hB := two_pow_pos B
+  -- cancel 2^B
+  have e1 : 2 * (r * (4 * p * 2 ^ B)) = 2 * (r * (4 * p)) * 2 ^ B := by
+    rw [Nat.mul_assoc 2, Nat.mul_assoc r]
+  have e2 : 2 * (m * 2 ^ B) = 2 * m * 2 ^ B := by rw [Nat.mul_assoc]
+  rw [e1, e2, ← Nat.add_mul] at h1 h2
+  have g1 := Nat.le_of_mul_le_mul_right h1 hB
+  have g2 := Nat.le_of_mul_le_mul_right h2 hB
+  have e3 : 2 * 2 ^ B = 2 * 2 ^ B := rfl
+  rw [e1, e2, ← Nat.add_mul, ← Nat.add_mul, ← Nat.add_mul, ← Nat.add_mul]
+  have k1 : 2 * (r * (4 * p)) + 2 ≤ 2 * m + 4 * p := by
+    have : r * (4 * p) = 4 * (r * p) := by rw [← Nat.mul_assoc, Nat.mul_comm r 4, Nat.mul_assoc]
+    rw [this] at g1 ⊢
+    generalize r * p = X at *
+    omega
+  have k2 : 2 * m + 2 ≤ 2 * (r * (4 * p)) + 4 * p := by
+    have : r * (4 * p) = 4 * (r * p) := by rw [← Nat.mul_assoc, Nat.mul_comm r 4, Nat.mul_assoc]
+    rw [this] at g2 ⊢
+    generalize r * p = X at *
+    omega
+  exact ⟨Nat.mul_le_mul_right _ k1, Nat.mul_le_mul_right _ k2⟩
 
 theorem pval_zero_mul (P : Nat) : pval 0 * P = 0 := by
   rw [pval_small 0 (by decide), Nat.zero_mul]
@@ -186,7 +237,7 @@ theorem rpU_err_ulp (m B T : Nat) (hT : 875 ≤ T) (hT2 : T ≤ 1127) (h : m * 2
     rw [rpU_zero, pval_zero_mul, Nat.zero_mul]
     exact ⟨by decide, Nat.zero_le _, Nat.zero_le _⟩
   · have hlt : m * 2 ^ B < 2 ^ 1127 := Nat.lt_of_lt_of_le h (pow_mono (a := T) (b := 1127) hT2)
-    obtain ⟨h0, _, h1, h2⟩ := rpU_val m B hm hlt
+    obtain ⟨h0, _, h1, h2, _⟩ := rpU_val m B hm hlt
     have hLB := log2_add_lt hm h
     have hq : 2 ^ quant m B ≤ 2 ^ (T - 24) := pow_mono (by unfold quant; omega)
     clear h hlt
@@ -207,7 +258,7 @@ theorem rpU_err_rel (m B : Nat) (hlt : m * 2 ^ B < 2 ^ 1127) (hn : 2 ^ 874 ≤ m
     rw [h0, Nat.zero_mul] at hn
     have := two_pow_pos 874
     omega
-  obtain ⟨h0, _, h1, h2⟩ := rpU_val m B hm hlt
+  obtain ⟨h0, _, h1, h2, _⟩ := rpU_val m B hm hlt
   have lo := Nat.log2_self_le hm
   have hi := @Nat.lt_log2_self m
   have hL : 874 ≤ Nat.log2 m + B := by
